@@ -22,7 +22,7 @@ using Sparse = P::SparseModel<AIToolbox::MDP::SparseModel>;
 
 static const long kFixed = 8;
 
-long verif::verif_ncases(const std::string & tier) { return kFixed + (tier == "thorough" ? 1500 : 70); }
+long verif::verif_ncases(const std::string & tier) { return kFixed + (tier == "thorough" ? 6000 : 260); }
 
 static std::vector<AIToolbox::Vector> testBeliefs(Rng & rng, size_t S, int nrandom) {
     std::vector<AIToolbox::Vector> bs;
@@ -92,6 +92,7 @@ static void runRTBSS(const PomdpTables & pt, unsigned h, bool dyadic, Rng & rng,
     const double mr = trueMaxR(pt);
     for (int i = 0; i < n; ++i) {
         AIToolbox::Vector b = dyadicBelief(rng, pt.S, 3);
+        if (i == 0 && rng.coin(1, 3)) { b.setZero(); b[rng.below(pt.S)] = 1.0; }      // simplex corner
         double maxR;
         switch (rng.below(4)) {
             case 0: maxR = mr; break;                                   // exactly the largest reward (what the header documents)
@@ -181,16 +182,26 @@ void verif::verif_case(Rng & rng, long idx, const std::string & tier) {
     if (idx < kFixed) return;
 
     // ---- generated instances
-    const int style = (int)rng.below(8);          // 0..4 dyadic, 5 duplicate action, 6 dominated action, 7 ugly (non-dyadic)
+    const int style = (int)rng.below(10);         // 0..3 dyadic, 4 state-matched rewards, 5 duplicate action, 6 dominated action, 7 ugly (non-dyadic), 8 ties at a corner, 9 dyadic
     size_t S = (size_t)rng.range(2, 3), A = 2, O = 2;
-    if (rng.coin(1, 4)) S = (size_t)rng.range(2, thorough ? 4 : 3);
+    if (rng.coin(1, 4)) S = (size_t)rng.range(2, 4);
     if (rng.coin(1, 8)) A = 1; else if (rng.coin(1, 4)) A = 3;
     if (rng.coin(1, 8)) O = 1; else if (rng.coin(1, 4)) O = 3;
     unsigned h = (unsigned)rng.range(1, 3);
     if (A * O >= 9 && h == 3) h = 2;
+    if (S >= 4 && A * O >= 6 && h == 3) h = 2;
     if (thorough && rng.coin(1, 10) && A * O <= 4) h = 4;
     PomdpTables pt = randomPomdp(rng, S, A, O, 3);
     bool dyadic = true;
+    if (style == 4) {   // action a pays in state a: several vectors survive, different actions optimal in different regions
+        for (size_t s = 0; s < S; ++s) for (size_t a = 0; a < A; ++a) pt.R(s, a) = (s % A == a) ? 4.0 + 0.25 * (double)rng.range(0, 8) : -0.25 * (double)rng.range(0, 16);
+        std::printf("#stat shape:state_matched_rewards 1\n");
+    }
+    if (style == 8 && A >= 2) {   // exact ties: all actions pay the same in state 0, and two actions the same in the last state
+        for (size_t a = 1; a < A; ++a) pt.R(0, a) = pt.R(0, 0);
+        pt.R(S - 1, A - 1) = pt.R(S - 1, 0);
+        std::printf("#stat shape:corner_ties 1\n");
+    }
     if (style == 5 && A >= 2) { pt.T[A - 1] = pt.T[0]; pt.Ob[A - 1] = pt.Ob[0]; pt.R.col(A - 1) = pt.R.col(0); std::printf("#stat shape:duplicate_action 1\n"); }
     if (style == 6 && A >= 2) { pt.T[A - 1] = pt.T[0]; pt.Ob[A - 1] = pt.Ob[0]; pt.R.col(A - 1) = pt.R.col(0).array() - 0.5; std::printf("#stat shape:dominated_action 1\n"); }
     if (style == 7) {
